@@ -64,6 +64,19 @@ func c13Ops(seed int64, n int) []c13Op {
 			ops = append(ops, c13Op{Kind: "print", Model: withID(rng, GenModel(rng, GenOpts{Conds: true, Modular: rng.Intn(2) == 0, MaxDepth: 3, DSLValid: rng.Intn(2) == 0}).Proto())})
 		case 2:
 			ms := GenModSet(rng, rng.Intn(2))
+			if rng.Intn(3) == 0 {
+				// a file that is not a module among the module files (the merger's own error path, with the file name
+				// as part of the returned error)
+				f := rng.Intn(len(ms.Files))
+				ext := false
+				for _, t := range ms.Files[f].Types {
+					ext = ext || t.Extend
+				}
+				if !ext {
+					ms.Files[f].Module = ""
+					ms.Files[f].Schema = "1.1"
+				}
+			}
 			ms.Render(rng)
 			ops = append(ops, c13Op{Kind: "merge", Names: ms.Names, Texts: ms.Texts})
 		case 3:
@@ -194,7 +207,7 @@ func c13Keep(i int, op c13Op) *c13Kept {
 		return nil
 	}
 	if k.err != nil {
-		k.errText = k.err.Error()
+		k.errText = c13ErrText(k.err)
 	}
 	if k.model != nil {
 		k.modelText = canonModel(k.model)
@@ -202,10 +215,26 @@ func c13Keep(i int, op c13Op) *c13Kept {
 	return k
 }
 
+// c13ErrText: everything a caller can read from a returned error - the message and, for the errors of the module
+// merger, file, lines and columns of every item (Error() does not print the file)
+func c13ErrText(err error) string {
+	s := err.Error()
+	if me, ok := err.(*transformer.ModuleValidationMultipleError); ok {
+		for _, e := range me.Errors {
+			if x, ok := e.(*transformer.ModuleTransformationSingleError); ok {
+				s += fmt.Sprintf(" {%q file %q lines %d-%d columns %d-%d}", x.Msg, x.File, x.Line.Start, x.Line.End, x.Column.Start, x.Column.End)
+			} else {
+				s += " {" + e.Error() + "}"
+			}
+		}
+	}
+	return s
+}
+
 // changed reports what differs now from what was returned
 func (k *c13Kept) changed() string {
 	if k.err != nil {
-		if now := k.err.Error(); now != k.errText {
+		if now := c13ErrText(k.err); now != k.errText {
 			return "the error value returned by an earlier call reads differently after later calls: it was " + trunc(k.errText, 300) + " and is now " + trunc(now, 300)
 		}
 	}
